@@ -59,9 +59,9 @@ def sentWrapStr (W : Nat) (i0 s0 : Str) (minLen : Nat) (md : Bool) (ws : List (W
   let ls := (wrapBySentence c ws).map joinSp
   denormalizeAdjacentTags (joinWith ['\n'] (addIndents i0 s0 false ls))
 
-/-- `width <= 0`: `initial_indent + text.replace("\n", " ").strip()`. -/
+/-- `width <= 0`: `initial_indent + " ".join(text.replace("\n", " ").split())`. -/
 def sentNoWrap (i0 text : Str) : Str :=
-  i0 ++ strip (text.map fun ch => if ch == '\n' then ' ' else ch)
+  i0 ++ joinSp (pySplit (text.map fun ch => if ch == '\n' then ' ' else ch))
 
 
 /-! ### `SENTENCE_END_RE` as a scanner
